@@ -145,6 +145,7 @@ unit = {
     "property": ["C13"],
     "desc": "readLPF line-buffer management (real and rational reader): growth of buf/tmp/line while a line is read, blank squeezing "
             "into tmp, sign collapsing into line - verbatim regions of the main loop on heap objects of exactly the requested, symbolic capacity",
+    "scope_bounded": False,   # unwind 3 = the inductive step through the getline stub, not a size cap
     "rmode": "bytes and ints (no arithmetic abstraction)",
     "flags": ["--bounds-check", "--pointer-check", "--signed-overflow-check", "--conversion-check", "--no-malloc-may-fail", "--sat-solver", "cadical"],
     "instrument_flags": ["--no-malloc-may-fail"],
